@@ -22,6 +22,7 @@ type RunOpts struct {
 	NoLog    bool // do not record storage events
 	PollsAfterEnd int // extra polls after the end of stream (C12)
 	AltModes string // optional: per-poll mode string e.g. "rbbr" (r=Next b=Batch), cycles
+	NoGlobals bool  // do not touch the package-level knobs (concurrent runs)
 }
 
 type PlanInfo struct {
@@ -162,10 +163,12 @@ func RunQuery(q string, st kvql.Storage, rec *Rec, o RunOpts) (out Outcome) {
 	if o.MaxRows == 0 {
 		o.MaxRows = 200000
 	}
-	if o.BSize > 0 {
-		kvql.PlanBatchSize = o.BSize
+	if !o.NoGlobals {
+		if o.BSize > 0 {
+			kvql.PlanBatchSize = o.BSize
+		}
+		kvql.EnableFieldCache = o.Cache
 	}
-	kvql.EnableFieldCache = o.Cache
 	defer func() {
 		if r := recover(); r != nil {
 			out.Phase = "panic"
